@@ -13,6 +13,7 @@ import (
 	"go/token"
 	"go/types"
 	"sort"
+	"sync"
 
 	"golang.org/x/tools/go/cfg"
 )
@@ -47,6 +48,9 @@ func (e Edge) To() *cfg.Block { return e.From.Succs[e.Idx] }
 
 func newGraph(f *Func, g *cfg.CFG) *Graph {
 	gr := &Graph{F: f, G: g, preds: map[*cfg.Block][]*cfg.Block{}, dead: map[Edge]bool{}}
+	if f.Body != nil {
+		registerSwitchConds(f.Body)
+	}
 	for _, b := range g.Blocks {
 		if !b.Live {
 			continue
@@ -105,12 +109,41 @@ func newGraph(f *Func, g *cfg.CFG) *Graph {
 
 func (g *Graph) Entry() Point { return Point{g.G.Blocks[0], 0} }
 
+// switchConds maps a case expression of a tagged switch to the comparison it
+// stands for: go/cfg records only the case expression ("one half of the tag ==
+// cond condition") as the branch condition; rules are written against
+// comparisons, so `switch x { case A:` reads as `x == A` exactly like the
+// equivalent `if x == A`.
+var switchConds sync.Map // ast.Expr -> *ast.BinaryExpr
+
+func registerSwitchConds(body ast.Node) {
+	ast.Inspect(body, func(n ast.Node) bool {
+		sw, ok := n.(*ast.SwitchStmt)
+		if !ok || sw.Tag == nil {
+			return true
+		}
+		for _, cl := range sw.Body.List {
+			for _, e := range cl.(*ast.CaseClause).List {
+				if _, done := switchConds.Load(e); !done {
+					switchConds.Store(e, &ast.BinaryExpr{X: sw.Tag, OpPos: e.Pos(), Op: token.EQL, Y: e})
+				}
+			}
+		}
+		return true
+	})
+}
+
 // Cond returns the condition expression ending block b, if b is a two-way branch.
 func Cond(b *cfg.Block) ast.Expr {
 	if len(b.Succs) != 2 || len(b.Nodes) == 0 {
 		return nil
 	}
 	e, _ := b.Nodes[len(b.Nodes)-1].(ast.Expr)
+	if e != nil {
+		if be, ok := switchConds.Load(e); ok {
+			return be.(*ast.BinaryExpr)
+		}
+	}
 	return e
 }
 
